@@ -119,9 +119,11 @@ impl Strategy {
             &mut collector,
         );
 
-        let LeapfrogResult::Ok(_) = state_next else {
-            return Ok(());
-        };
+        match state_next {
+            LeapfrogResult::Ok(_) => {}
+            LeapfrogResult::Err(err) => return Err(NutsError::LogpFailure(err.into())),
+            LeapfrogResult::Divergence(_) => return Ok(()),
+        }
 
         let accept_stat = collector.mean.current();
         let dir = if accept_stat > self.options.target_accept {
@@ -142,10 +144,14 @@ impl Strategy {
                 1000.0,
                 &mut collector,
             );
-            let LeapfrogResult::Ok(_) = state_next else {
-                *hamiltonian.step_size_mut() = self.options.initial_step;
-                return Ok(());
-            };
+            match state_next {
+                LeapfrogResult::Ok(_) => {}
+                LeapfrogResult::Err(err) => return Err(NutsError::LogpFailure(err.into())),
+                LeapfrogResult::Divergence(_) => {
+                    *hamiltonian.step_size_mut() = self.options.initial_step;
+                    return Ok(());
+                }
+            }
             let accept_stat = collector.mean.current();
             match dir {
                 Direction::Forward => {
